@@ -123,7 +123,10 @@ pub fn observe_mode<G: ark_ec::AffineRepr + 'static>(shape: &Shape, vals: Box<dy
     rewind_for_verifier(&shr);
     let v_from = merlin::vlog::len();
     let mut vt = new_verifier_transcript(shape);
-    let res = build_verifier(shape, &shr, &mut vt).verify_and_return_transcript(&proof, &pc, &bp).map(|_| ());
+    // the verifier's generator set is larger and has more parties than the prover's: local configuration that no
+    // transcript operation may depend on
+    let bp_v = BulletproofGens::<G>::new(2 * pad + 1, 3);
+    let res = build_verifier(shape, &shr, &mut vt).verify_and_return_transcript(&proof, &pc, &bp_v).map(|_| ());
     let mut vtail = [0u8; 32];
     vt.challenge_bytes(b"verif-tail", &mut vtail);
     out.push(("honest proof verifies".to_string(), res.is_ok(), format!("{:?}", res)));
